@@ -93,19 +93,24 @@ class LQueue(_sched.SQueue):
     def __init__(self, instr, maxsize, name):
         super().__init__(instr.s, maxsize, name)
         self.instr = instr
+        # (added) every queue object has a number, appended as the last field of its log entries: a client that
+        # connects anew replaces its queues
+        self.uid = getattr(instr, 'nqueues', 0)
+        instr.nqueues = self.uid + 1
+        instr.ev('q.new', name, self.uid)
 
     def put(self, item, block=True, timeout=None):
         try:
             super().put(item, block, timeout)
         except BaseException as e:
             if not isinstance(e, _sched.SchedAbort):
-                self.instr.ev('q.put.fail', self.name, _entry_id(item), type(e).__name__)
+                self.instr.ev('q.put.fail', self.name, _entry_id(item), type(e).__name__, self.uid)
             raise
-        self.instr.ev('q.put', self.name, _entry_id(item), _entry_req(item))
+        self.instr.ev('q.put', self.name, _entry_id(item), _entry_req(item), self.uid)
 
     def empty(self):
         r = super().empty()
-        self.instr.ev('q.empty', self.name, r)
+        self.instr.ev('q.empty', self.name, r, self.uid)
         return r
 
     def get(self, block=True, timeout=None):
@@ -113,19 +118,21 @@ class LQueue(_sched.SQueue):
             item = super().get(block, timeout)
         except BaseException as e:
             if not isinstance(e, _sched.SchedAbort):
-                self.instr.ev('q.get.fail', self.name, type(e).__name__, bool(block))
+                self.instr.ev('q.get.fail', self.name, type(e).__name__, bool(block), self.uid)
             raise
-        self.instr.ev('q.get', self.name, _entry_id(item), bool(block))
+        self.instr.ev('q.get', self.name, _entry_id(item), bool(block), self.uid)
         return item
 
 
 class LHandle:
     """wraps what `mkthread` returns: `join` is written to the effect log when it returns"""
 
-    def __init__(self, instr, inner):
+    def __init__(self, instr, inner, announce=True):
         self.instr = instr
         self.inner = inner
         self.name = inner.name
+        if announce:
+            instr.ev('th.new', self.name)      # (added) the thread exists from here on
 
     def join(self, timeout=None):
         r = self.inner.join(timeout)
@@ -175,6 +182,14 @@ class LEvent(_sched.SEvent):
     def clear(self):
         super().clear()
         self.instr.ev('ev.clear', self.name)
+
+    def is_set(self):
+        # (added) the test is logged; it is no yield point, as before
+        r = super().is_set()
+        self.instr.ev('ev.isset', self.name, bool(r))
+        return r
+
+    isSet = is_set
 
     def wait(self, timeout=None):
         r = super().wait(timeout)
@@ -335,6 +350,12 @@ class YAttr:
     def _short(v):
         if v is None or isinstance(v, (bool, int, str)):
             return v
+        if isinstance(v, LHandle):          # (added) which thread / connection / event
+            return v.name
+        if isinstance(v, FakeConn):
+            return 'conn%d' % v.index
+        if isinstance(v, LEvent):
+            return v.name
         return type(v).__name__
 
     def __get__(self, obj, cls=None):
@@ -374,6 +395,7 @@ class Peer:
                                                 connection the built-in script answers the set-up requests (*IDN?, describe,
                                                 activate) as on the first one, the rules go on applying, nothing else happens
       'refuse_first': n                         with 'accept': the first n further attempts are refused all the same
+      'refuse_attempts': [k, ...]               with 'accept': the k-th further attempts (1-based) are refused as well
     }
     All lines are `str` without the end-of-line.  Every emitted line is logged with `after` = number of lines the client
     had transmitted when the peer emitted it and `re` = index of the transmission that triggered it (None: spontaneous).
@@ -409,7 +431,8 @@ class Peer:
         if self.conns:
             self.attempts += 1
         if self.conns and (self.script.get('reconnect', 'refuse') == 'refuse'
-                           or self.attempts <= self.script.get('refuse_first', 0)):
+                           or self.attempts <= self.script.get('refuse_first', 0)
+                           or self.attempts in self.script.get('refuse_attempts', ())):
             self.instr.ev('c.new', False)
             raise CommunicationFailedError('can not connect (scripted)')
         c = FakeConn(self)
